@@ -157,6 +157,16 @@ def runWatchers (sc : Script) (k : WKind) (s : State) : State :=
   runWatchersLoop sc k (s.watcherLocal.length + 1) s
 
 /-! ### uv__work_done (threadpool.c:311-345) and uv__async_io (async.c:148-195) -/
+def reqApi (reqs : List Req) (r : Nat) : Api :=
+  match reqs.find? (·.id == r) with
+  | some q => q.kind.api
+  | none => .queueWork
+
+/-- status handed to the callback: UV_ECANCELED, or UV_EAI_CANCELED (-3003) for getaddrinfo / getnameinfo
+    (getaddrinfo.c:110-137, getnameinfo.c:60-80); the result of the operation itself is not modelled (0) -/
+def doneStatus (api : Api) (cancelled : Bool) : Int :=
+  if cancelled then (if api.slow then -3003 else -125) else 0
+
 def workDoneLoop (sc : Script) : Nat → State → State
   | 0, s => s
   | fuel + 1, s =>
@@ -164,9 +174,11 @@ def workDoneLoop (sc : Script) : Nat → State → State
     | [] => s
     | (r, cancelled) :: rest =>
       let s := { s with doneLocal := rest }
-      -- uv__queue_done: uv__req_unregister, then after_work_cb
+      -- uv__queue_done / uv__fs_done / uv__getaddrinfo_done / uv__getnameinfo_done / uv__random_done, and the
+      -- body of uv__poll_io_uring's loop: uv__req_unregister, then the callback
+      let api := reqApi s.reqs r
       let s := { s with ar := reqUnregister s.ar, reqs := s.reqs.filter (·.id != r) }
-      workDoneLoop sc fuel (runCb sc .poll .work (.r r) r (if cancelled then -125 else 0) 0 0 s)
+      workDoneLoop sc fuel (runCb sc .poll .work (.r r) r (doneStatus api cancelled) api.code 0 s)
 
 def workDone (sc : Script) (s : State) : State :=
   let s := { s with doneLocal := s.doneQ, doneQ := [] }
@@ -191,6 +203,17 @@ def asyncIoLoop (sc : Script) : Nat → State → State
 def asyncIo (sc : Script) (s : State) : State :=
   let s := { s with asyncLocal := s.asyncs, asyncs := [] }
   asyncIoLoop sc (s.asyncLocal.length + 1) s
+
+/-! ### uv__poll_io_uring (linux.c:1165-1250) -/
+/-- the CQ entries [head, tail): requests that are in flight in the ring, in the order the kernel posted them -/
+def ringTake (s : State) (cq : List Nat) : State :=
+  cq.foldl (fun s r => if s.ringQ.contains r then
+    { s with ringQ := s.ringQ.erase r, doneLocal := s.doneLocal ++ [(r, false)] } else s) s
+
+/-- for every entry: uv__req_unregister, in_flight--, req->cb(req) -/
+def ringDone (sc : Script) (cq : List Nat) (s : State) : State :=
+  let s := ringTake s cq
+  workDoneLoop sc (s.doneLocal.length + 1) s
 
 /-! ### uv__poll_io (poll.c:30-66) -/
 def pollIo (sc : Script) (id : Nat) (ev : Nat) (s : State) : State :=
@@ -244,6 +267,10 @@ def dispatchLoop (sc : Script) : Nat → State → Nat → Bool → State × Nat
               | .udp => udpIo sc .poll id e s
               | _ => s          -- listening sockets never become ready in the simulator
             dispatchLoop sc fuel s (n + 1) sg
+      | .ring cq =>
+        -- `if (fd == iou->ringfd) { uv__poll_io_uring(loop, iou); have_iou_events = 1; continue; }`: not counted in
+        -- nevents; the loop leaves uv__io_poll after this batch (same exit as have_signals)
+        if s.ring == .ok then dispatchLoop sc fuel (ringDone sc cq s) n true else dispatchLoop sc fuel s n sg
 
 /-- flush of the watcher queue (linux.c:1406-1435): `w->events = w->pevents` -/
 def flushWatchers (s : State) : State :=
